@@ -280,3 +280,35 @@ def strategy(tier):
             script.append({"q": q})
         return {"kind": kind, "ext": ext, "wrap": wrap, "agents": agents, "moves": moves, "script": script}
     return case()
+
+
+EXHAUSTIVE_DOMAIN = ("line worlds of width 1..4 (wrap on/off) and continuous 1-D worlds of extent 1 (eighths): every placement of one "
+                     "or two agents on cells / quarter points incl. both edges x every query point from one step outside to one step "
+                     "outside x leeway in {0, 1 step, 2 steps} x x_leeway in {0, 1 step, 3 steps, -1 step}")
+
+
+def exhaustive(tier):
+    import itertools
+    for wrap in (False, True):
+        for w in (1, 2, 3, 4):
+            cells = [8 * c for c in range(w)]
+            placements = [[a] for a in cells] + ([[a, b] for a in cells for b in cells] if (tier != "quick" or w <= 3) else [])
+            for pl in placements:
+                queries = []
+                for q in range(-8, 8 * w + 1, 8):
+                    for lee in (0, 8, 16):
+                        for xl in (0, 8, 24, -8):
+                            queries.append({"q": [q, 0, 0], "lee": lee, "axl": [xl, 0, 0], "pass_zero": False})
+                for chunk in range(0, len(queries), 8):
+                    yield {"kind": "line", "ext": [8 * w, 0, 0], "wrap": wrap, "agents": [{"pos": [a, 0, 0]} for a in pl], "moves": [],
+                           "queries": queries[chunk:chunk + 8]}
+        pts = [0, 2, 4, 6, 8]
+        for pl in [[a] for a in pts] + [[a, b] for a in pts for b in pts if tier != "quick" or a <= b]:
+            queries = []
+            for q in (-2, 0, 2, 4, 6, 8, 10):
+                for lee in (0, 2, 4):
+                    for xl in (0, 2, 6, -2):
+                        queries.append({"q": [q, 0, 0], "lee": lee, "axl": [xl, 0, 0], "pass_zero": True})
+            for chunk in range(0, len(queries), 8):
+                yield {"kind": "space", "ext": [8, 0, 0], "wrap": wrap, "agents": [{"pos": [a, 0, 0]} for a in pl], "moves": [],
+                       "queries": queries[chunk:chunk + 8]}
